@@ -1777,6 +1777,29 @@ fn gen_case(rng: &mut Rng, n: usize, tier: &str, scratch: &std::path::Path, out:
                     let n = words.len();
                     ops.push(Op::Select(match rng.below(3) { 0 => n, 1 => n.saturating_sub(1), _ => rng.below(n as u64 + 2) as usize }));
                 }
+                _ if !selecting && pick == 15 => {
+                    // the symbol table opened on an EMPTY buffer, turned to a later page, then `j` / `k`: with nothing in the
+                    // buffer these keys are refused - and a refused key leaves the page where it is (seeded change C06-D)
+                    let mut o = opts_vec(&ed.editor_options());
+                    o[7] = 2 + rng.below(2) as u32;
+                    o[8] = 0;
+                    ops.push(Op::Clear);
+                    ops.push(Op::Opts(o));
+                    ops.push(key_op(Grave, none));
+                    for _ in 0..(1 + rng.below(2)) {
+                        ops.push(key_op(*rng.pick(&[Right, PageDown, Space]), none));
+                    }
+                    ops.push(Op::Get(1));
+                    ops.push(key_op(*rng.pick(&[J, K]), none));
+                    ops.push(Op::Get(1));
+                    if rng.chance(1, 2) {
+                        ops.push(digit(rng));
+                        ops.push(key_op(*rng.pick(&[Right, PageDown]), none));
+                        ops.push(key_op(*rng.pick(&[J, K]), none));
+                        ops.push(Op::Get(1));
+                    }
+                    ops.push(key_op(Esc, none));
+                }
                 _ if !selecting && pick == 14 => {
                     // a long phrase (12..14 syllables) in the user dictionary, typed, chosen as a whole at the start
                     // of the buffer, then edited further (seeded change C03-C: an edge longer than 11 symbols)
@@ -2051,7 +2074,7 @@ fn gen_case(rng: &mut Rng, n: usize, tier: &str, scratch: &std::path::Path, out:
     }
 }
 
-const N_SCENARIOS: u64 = 15;
+const N_SCENARIOS: u64 = 16;
 
 #[derive(Default)]
 struct Stats {
